@@ -4,7 +4,7 @@ from pathlib import Path
 LIBS = ["libavoid"]
 HARNESS = "harness/c11.cpp"
 DRIVER_MODE = "c11"
-LEAN_MODULES = ["AdaptaVerif.Props.C11", "AdaptaVerif.Props.C11Tie"]
+LEAN_MODULES = ["AdaptaVerif.Props.C11", "AdaptaVerif.Props.C11Tie", "AdaptaVerif.Props.C11Legs"]
 # COLA_ASSERT throws vpsc::CriticalFailure instead of calling abort(): a failed library assertion is
 # reported per case by the harness ("assert" line) and decided by the driver
 EXTRA_FLAGS = ["-DUSE_ASSERT_EXCEPTIONS"]
@@ -53,7 +53,7 @@ ROOT = Path(__file__).resolve().parent.parent.parent
 # lead has recorded the class in known_findings.json, so that hits print KNOWN-FINDING
 GEN_CLASSES = {"C11-border0": "border0", "C11-cp-junction": "cpjunction", "C11-del-attached": "delattached"}
 DRV_CLASSES = {"C11-lib-assert": "lib-assert", "C11-cp-disp": "cp-disp", "C11-hyper-disp": "hyper-disp", "C11-nudge-dir": "nudge-dir", "C11-no-path": "no-path",
-               "C11-retarget-jmove": "retarget-jmove"}
+               "C11-retarget-jmove": "retarget-jmove", "C11-cp-dirs": "cp-dirs"}
 
 
 def _known_ids():
@@ -84,7 +84,12 @@ def plan(tier, seed, searching):
     hargs = ["--seed", str(seed), "--tier", tier, "--scale", "8" if searching else "1"]
     if modes:
         hargs += ["--mode", "+".join(modes)]
-    return [dict(hargs=hargs, dargs=strict)]
+    # second stream, generator class cpdirs: checkpoints with arrival / departure direction masks, crossing and
+    # shared-path penalties (second search of a connector inside the transaction), dragged free ends (later search
+    # over persisting polyline edges); the visibility-edge observables (cpv / probe / visall / viscb lines) are in
+    # both streams
+    hargs2 = ["--seed", str(seed), "--tier", tier, "--scale", "8" if searching else "1", "--mode", "+".join(modes + ["cpdirs"])]
+    return [dict(hargs=hargs, dargs=strict, label="base"), dict(hargs=hargs2, dargs=strict, label="cpdirs")]
 
 
 def only_args(hargs, k):
